@@ -95,6 +95,12 @@ pub fn simulate_with(plan: &Plan, opts: &SimOpts) -> Outcome {
             msg: e.to_string(),
         },
         Ok(Err(ShimErr::Token(t))) => RunEnd::Token(t),
+        Err(_) if world.borrow().app_panic.is_some() => {
+            // the application's own panic, unwound through run_on: for the oracles it is the
+            // callback failing with that token
+            let _ = panichook::take_last_pair();
+            RunEnd::Token(world.borrow().app_panic.unwrap_or(0))
+        }
         Err(_) => {
             let (loc, msg) = panichook::take_last_pair().unwrap_or_default();
             if !loc.starts_with('/') || msg.starts_with("harness:") {
